@@ -78,29 +78,45 @@ func BuildSchemaValidation(schema *openapi3.SchemaRef, validationString string, 
 			}
 		case "gt":
 			if specType == "integer" || specType == "number" {
-				schema.Value.Min = swagtool.ParseNumber(ruleValue)
-				schema.Value.ExclusiveMin = true
+				if bound := swagtool.ParseNumber(ruleValue); bound != nil {
+					schema.Value.Min = bound
+					schema.Value.ExclusiveMin = true
+				} else {
+					logger.Warn("Validation rule 'gt' has an invalid numeric value '%s'", ruleValue)
+				}
 			} else {
 				logger.Warn("Validation rule 'gt' is only applicable to numeric fields, got %s", specType)
 			}
 		case "gte":
 			if specType == "integer" || specType == "number" {
-				schema.Value.Min = swagtool.ParseNumber(ruleValue)
-				schema.Value.ExclusiveMin = false
+				if bound := swagtool.ParseNumber(ruleValue); bound != nil {
+					schema.Value.Min = bound
+					schema.Value.ExclusiveMin = false
+				} else {
+					logger.Warn("Validation rule 'gte' has an invalid numeric value '%s'", ruleValue)
+				}
 			} else {
 				logger.Warn("Validation rule 'gte' is only applicable to numeric fields, got %s", specType)
 			}
 		case "lt":
 			if specType == "integer" || specType == "number" {
-				schema.Value.Max = swagtool.ParseNumber(ruleValue)
-				schema.Value.ExclusiveMax = true
+				if bound := swagtool.ParseNumber(ruleValue); bound != nil {
+					schema.Value.Max = bound
+					schema.Value.ExclusiveMax = true
+				} else {
+					logger.Warn("Validation rule 'lt' has an invalid numeric value '%s'", ruleValue)
+				}
 			} else {
 				logger.Warn("Validation rule 'lt' is only applicable to numeric fields, got %s", specType)
 			}
 		case "lte":
 			if specType == "integer" || specType == "number" {
-				schema.Value.Max = swagtool.ParseNumber(ruleValue)
-				schema.Value.ExclusiveMax = false
+				if bound := swagtool.ParseNumber(ruleValue); bound != nil {
+					schema.Value.Max = bound
+					schema.Value.ExclusiveMax = false
+				} else {
+					logger.Warn("Validation rule 'lte' has an invalid numeric value '%s'", ruleValue)
+				}
 			} else {
 				logger.Warn("Validation rule 'lte' is only applicable to numeric fields, got %s", specType)
 			}
@@ -112,17 +128,29 @@ func BuildSchemaValidation(schema *openapi3.SchemaRef, validationString string, 
 					logger.Warn("Validation rule 'min' has an invalid length value '%s'", ruleValue)
 				}
 			} else if specType == "integer" || specType == "number" {
-				schema.Value.Min = swagtool.ParseNumber(ruleValue)
-				schema.Value.ExclusiveMin = false
+				if bound := swagtool.ParseNumber(ruleValue); bound != nil {
+					schema.Value.Min = bound
+					schema.Value.ExclusiveMin = false
+				} else {
+					logger.Warn("Validation rule 'min' has an invalid numeric value '%s'", ruleValue)
+				}
 			} else {
 				logger.Warn("Validation rule 'min' is only applicable to string or numeric fields, got %s", specType)
 			}
 		case "max":
 			if specType == "string" {
-				schema.Value.MaxLength = swagtool.ParseUInteger(ruleValue)
+				if maxLength := swagtool.ParseUInteger(ruleValue); maxLength != nil {
+					schema.Value.MaxLength = maxLength
+				} else {
+					logger.Warn("Validation rule 'max' has an invalid length value '%s'", ruleValue)
+				}
 			} else if specType == "integer" || specType == "number" {
-				schema.Value.Max = swagtool.ParseNumber(ruleValue)
-				schema.Value.ExclusiveMax = false
+				if bound := swagtool.ParseNumber(ruleValue); bound != nil {
+					schema.Value.Max = bound
+					schema.Value.ExclusiveMax = false
+				} else {
+					logger.Warn("Validation rule 'max' has an invalid numeric value '%s'", ruleValue)
+				}
 			} else {
 				logger.Warn("Validation rule 'max' is only applicable to string or numeric fields, got %s", specType)
 			}
@@ -155,7 +183,11 @@ func BuildSchemaValidation(schema *openapi3.SchemaRef, validationString string, 
 			}
 		case "maxItems":
 			if specType == "array" {
-				schema.Value.MaxItems = swagtool.ParseUInteger(ruleValue)
+				if maxItems := swagtool.ParseUInteger(ruleValue); maxItems != nil {
+					schema.Value.MaxItems = maxItems
+				} else {
+					logger.Warn("Validation rule 'maxItems' has an invalid value '%s'", ruleValue)
+				}
 			} else {
 				logger.Warn("Validation rule 'maxItems' is only applicable to array fields, got %s", specType)
 			}
@@ -175,6 +207,7 @@ func BuildSchemaValidation(schema *openapi3.SchemaRef, validationString string, 
 				logger.Warn("Validation rule 'enum' must have at least one value")
 				schema.Value.Enum = nil
 			} else {
+				schema.Value.Enum = make([]interface{}, 0, len(enumValues))
 				for _, v := range enumValues {
 					schema.Value.Enum = append(schema.Value.Enum, v)
 				}
